@@ -440,7 +440,7 @@ def check_presence(sql, lexd, kind, d, calls):
                 nums = [x for x in json.dumps(c).replace("[", " ").replace("]", " ").replace(",", " ").split() if x.lstrip("-").isdigit()]
                 if nums:
                     marks.append(int(nums[-1]))
-        if len(marks) > 1:
+        if len(marks) > 1 and len(set(marks)) == len(marks):  # (a call made twice carries the same marker twice: no order to read)
             posn = []
             start = _top_word(toks, fam.upper()) or 0
             for m in marks:
